@@ -14,10 +14,12 @@ import (
 func ValidV3(level spec.Level) *rapid.Generator[spec.Vec] {
 	return rapid.Custom(func(t *rapid.T) spec.Vec {
 		v := spec.Vec{Ver: rapid.SampledFrom(spec.V3Versions).Draw(t, "ver")}
+		// density of optional metrics: none at all, sparse, half, all — so that "no token of
+		// a level the decoder supports" and "everything written" are both common
+		density := rapid.SampledFrom([]int{0, 1, 2, 2, 4}).Draw(t, "density")
 		for _, m := range spec.UpTo(spec.V3Metrics, level) {
 			if m.Level != spec.Base {
-				// present with probability 1/2; value uniformly over codes (X included)
-				if !rapid.Bool().Draw(t, "has"+m.Name) {
+				if density == 0 || (density < 4 && rapid.IntRange(0, 3).Draw(t, "has"+m.Name) >= density) {
 					continue
 				}
 			}
